@@ -7,7 +7,6 @@ import io
 import itertools
 import os
 import pathlib
-import re
 import tempfile
 import traceback
 
@@ -179,23 +178,13 @@ def dispatch(rec):
 
 def check_text(run, stats, replay, jobs):
     total = 0
-    # design level: csv.writer lossless, separator_format safe under Safe(t)
+    # design level: csv.writer and separator_format (csv.writer based since its repair) are lossless
     recs, res = jobs.get("design")
     n, bad = replay(run, recs, dispatch, "TableText/design")
     stats["text-design"] = {"tlc_states": res.distinct, "tlc_transitions": res.generated, "tlc_wall_s": round(res.wall, 1),
                             "cases": n, "disagreements": bad,
                             "separator_format_lossy_tables": sum(1 for r in recs if not r["to"]["sep_ok"])}
     total += n
-    # the design-level counterexample: separator_format is NOT lossless (expected violation of the law)
-    _, cx = jobs.get("cx")
-    m = re.search(r"State 1:.*?/\\ tab = (.*?)\n(?:/\\|\n)", cx.out, re.S)
-    if cx.violated and "LawSepFormatLossless is violated" in cx.out:
-        stats["text-design"]["SepFormatLossless"] = {"holds": False, "counterexample": " ".join(m.group(1).split()) if m else "?"}
-    elif cx.ok:
-        stats["text-design"]["SepFormatLossless"] = {"holds": True}
-        run.model_drift("TableText: SepFormatLossless now holds in the model")
-    else:
-        raise RuntimeError("TLC failed on MC_Table_textcx.cfg:\n" + cx.out[-2000:])
     # typed tables x output paths on the real code
     recs, res = jobs.get("io")
     n, bad = replay(run, recs, dispatch, "TableText/io")
